@@ -298,7 +298,7 @@ void TcpConnection::startRead()
 void TcpConnection::startReadInLoop()
 {
   loop_->assertInLoopThread();
-  if (!reading_ || !channel_->isReading())
+  if (state_ != kDisconnected && (!reading_ || !channel_->isReading()))
   {
     channel_->enableReading();
     reading_ = true;
@@ -313,7 +313,7 @@ void TcpConnection::stopRead()
 void TcpConnection::stopReadInLoop()
 {
   loop_->assertInLoopThread();
-  if (reading_ || channel_->isReading())
+  if (state_ != kDisconnected && (reading_ || channel_->isReading()))
   {
     channel_->disableReading();
     reading_ = false;
